@@ -82,8 +82,10 @@ def infer_redirection(url, recursive=True):
             elif "youtube.com/redirect?" in url:
                 target = "https://" + potential_target
 
-    # NOTE: a relative target can resolve to the url itself
-    if target is None or target == url:
+    # NOTE: a relative target can resolve to the url itself, or to the url with
+    # something appended; only following targets shorter than the url guarantees
+    # that the inference ends
+    if target is None or len(target) >= len(url):
         return original_url
 
     if recursive:
